@@ -6,13 +6,13 @@ import LokiModel.Generated.C43Tables
 Property (properties.jsonl): applying the automatic fixes of fixable lint rules yields a file in which those rules
 report no violations, all other text is unchanged, and the program computes the same outputs as before.
 
-The real fixer of `Fortran90OperatorsRule` raises `AttributeError` on every reported violation (open finding
-`ops-fix-raises`, witness theorems in `LokiModel/Findings/C43.lean`), so the statements `fix_clean`, `fix_local`,
-`fix_sem` below are about the SPECIFICATION function `specFix` (what the fixer is meant to do: F77 relational
-operators in code become F90 symbols), for every text, every start state of the segmenter.  What is proved about the
-code that runs: the model of `Linter.fix` leaves the file untouched when nothing was reported
-(`C43_real_fix_untouched`), and the texts the detection reports are spellings of the operator named in the message
-(`C43_findall_f77`).  Detection vs. specification is checked by correspondence and the direct oracle.
+Since the fix of `ops-fix-raises` the fixer of `Fortran90OperatorsRule` RUNS: every reported IR node is replaced by
+`node.clone(source=None)`, the backend regenerates those statements (F90 operators) and copies all other text from
+`Source`.  Its model is `fixLines` (lines of reported nodes: `specFix`; every other line: copied), tied to the real
+`Linter.fix` by correspondence up to the layout of the regenerated statements (`squash`), on the inputs outside the open
+write-back classes (`fix-*`).  `C43_fixer_*` are the property statements about that model; `C43_fix_*` are the
+underlying statements about `specFix` (any text, any start state).  Detection vs. specification is checked by
+correspondence and the direct oracle (open classes `ops-*`).
 -/
 namespace LokiModel.C43
 
@@ -98,8 +98,59 @@ theorem C43_fix_sem_partial (k : Op) (rest : Line) (h : rest.head? ≠ some '=')
 theorem C43_sym_injective (k k' : Op) (h : k.sym = k'.sym) : k = k' := by
   cases k <;> cases k' <;> first | rfl | (simp [Op.sym] at h)
 
-/-- model of `Linter.fix` (code that runs): without reports the file is not touched -/
-theorem C43_real_fix_untouched : fixOutcome [] = .untouched := rfl
+/-- model of `Linter.fix`: the file is rewritten exactly when something was reported -/
+theorem C43_real_fix_untouched (rs : List Report) : fixOutcome rs = .untouched ↔ rs = [] := by
+  cases rs <;> simp [fixOutcome]
+
+/-! ## the running fixer (`fixLines`) -/
+
+/-- line by line: a line of a reported node is fixed as the specification says, every other line is copied -/
+theorem C43_fixer_lines (rs : List (Nat × Nat)) : ∀ (ls : List Line) (i j : Nat),
+    (fixLines rs i ls)[j]? = ls[j]?.map (fun l => if inRanges rs (i + j) then specFix .code l else l) := by
+  intro ls
+  induction ls with
+  | nil => intro i j; simp [fixLines]
+  | cons l ls ih =>
+    intro i j
+    cases j with
+    | zero => simp [fixLines]
+    | succ j =>
+      simp only [fixLines, List.getElem?_cons_succ]
+      rw [ih (i + 1) j]
+      have : i + 1 + j = i + (j + 1) := by omega
+      rw [this]
+
+/-- `fix_local` for the running fixer: lines outside the reported statements are unchanged (and no line is added or lost) -/
+theorem C43_fixer_local (rs : List (Nat × Nat)) (ls : List Line) (i j : Nat) (h : inRanges rs (i + j) = false) :
+    (fixLines rs i ls)[j]? = ls[j]? ∧ (fixLines rs i ls).length = ls.length := by
+  refine ⟨?_, ?_⟩
+  · rw [C43_fixer_lines]; cases ls[j]? <;> simp [h]
+  · clear h
+    induction ls generalizing i with
+    | nil => rfl
+    | cons l ls ih => simp [fixLines, ih]
+
+/-- `fix_clean` for the running fixer: a line of a reported statement has no violation left, its literal and comment
+characters are those of the original line -/
+theorem C43_fixer_clean (rs : List (Nat × Nat)) (ls : List Line) (i j : Nat) (l : Line)
+    (hl : ls[j]? = some l) (h : inRanges rs (i + j) = true) :
+    ∃ l', (fixLines rs i ls)[j]? = some l' ∧ specViol .code l' = [] ∧
+      protText (toks .code l') = protText (toks .code l) := by
+  refine ⟨specFix .code l, ?_, C43_fix_clean _ _, C43_fix_protected _ _⟩
+  rw [C43_fixer_lines, hl]; simp [h]
+
+/-- protected text of every line is preserved by the running fixer -/
+theorem C43_fixer_protected (rs : List (Nat × Nat)) : ∀ (ls : List Line) (i : Nat),
+    (fixLines rs i ls).map (fun l => protText (toks .code l)) = ls.map (fun l => protText (toks .code l)) := by
+  intro ls
+  induction ls with
+  | nil => intro i; rfl
+  | cons l ls ih =>
+    intro i
+    simp only [fixLines, List.map_cons, ih]
+    by_cases h : inRanges rs i = true
+    · simp [h, C43_fix_protected]
+    · simp [h]
 
 /-- every text reported by the detection for operator `k` starts with a (case-insensitive) spelling of `.xx.` of `k` -/
 theorem C43_findall_f77 (k : Op) : ∀ (l : Line) (n : Nat), ∀ m ∈ findallF77 k n l, ciStarts k.f77 m = true := by
